@@ -531,7 +531,7 @@ func crCases(c *core.Ctx) ([]json.RawMessage, error) {
 			kv := map[string]string{}
 			for i, l := range lines {
 				var cs aoCase
-				if json.Unmarshal([]byte(l), &cs) != nil {
+				if strings.HasPrefix(l, `{"fan"`) || json.Unmarshal([]byte(l), &cs) != nil {
 					continue
 				}
 				types := map[string]string{}
